@@ -983,8 +983,12 @@ func (r *Runner) ensureStorage() error {
 	if r.Runstackpos < r.runtrackcount*4 {
 		doubleIntSlice(&r.runstack, &r.Runstackpos)
 	}
-	if r.Runtrackpos < r.runtrackcount*4 && !r.growTrack() {
-		return ErrBacktrackingStackLimit
+	// growTrack may be truncated by the stack size limit, so one call might
+	// not make enough room: keep growing until there is, or until it can't
+	for r.Runtrackpos < r.runtrackcount*4 {
+		if !r.growTrack() {
+			return ErrBacktrackingStackLimit
+		}
 	}
 	return nil
 }
